@@ -66,7 +66,7 @@ CHECKS["C09"] = {
             "foreign attribute): 0.9 M pairs quick, 36.6 M thorough. The driver runs the real Validate on every pair; silent pairs are only "
             "checked for panics. A sample and every mismatch are judged again by TLC with explicit profile and subject.",
     "note": "trusted: TLC + Json module, the shared canonical subject order (cross-checked by the explicit-subject judge); the end-to-end clause "
-            "(a rejected certificate aborts the run before anything is written) is exercised in the C10/C18 filesystem replays",
+            "(a rejected certificate aborts the run before anything is written) is judged end to end by SubjectE2E.tla on a sample of decided pairs: fresh directory, and profile tightened after the first run",
 }
 _LIFE_NOTE = ("trusted: TLC; the projection package (encoding/pem + encoding/asn1 shadow structures, standard-library RSA/ECDSA for NIST curves, "
               "own math/big arithmetic for brainpool) which reads the abstract state off the real directory; the simulated filesystem "
